@@ -5,6 +5,7 @@ import socketio
 
 from .. import common, e1
 from ..cworld import ClientWorld
+from ..worlds import decode_stream
 from ..enum import has_bytes
 from ..introspect import callbacks_of, clear_client_partial_packet
 
@@ -355,6 +356,83 @@ class Model:
                       f'{expf!r}')
 
 
+def call_in_handler(result):
+    """The handler of a (text / binary) event with an id itself uses
+    call(); the server's ACK for that call arrives while the handler is
+    still running (engine.io hands every message to its own task/thread).
+    The call must return the acknowledged value and the event must be
+    acknowledged with the handler's result."""
+    n = 0
+    for is_async in (False, True):
+        for binary in (False, True):
+            n += 1
+            w = ClientWorld(is_async=is_async, reconnection=False)
+            c = w.c
+            seen = []
+            if is_async:
+                async def h(arg):
+                    r = await c.call('q', 1, timeout=5)
+                    seen.append((arg, r))
+                    return r
+            else:
+                def h(arg):
+                    r = c.call('q', 1, timeout=5)
+                    seen.append((arg, r))
+                    return r
+            c.on('h', h)
+            try:
+                r = w.connect(script=[['0{"sid":"s1"}']], namespaces=['/'])
+                if r[0] != 'ok':
+                    raise common.HarnessError(f'connect failed: {r}')
+                w.take_outbox()
+                arg = b'x' if binary else 'x'
+
+                def ack_frame():
+                    ev = [f for f in decode_stream(list(w.outbox))
+                          if f[0] == 'pkt' and f[1] == 2]
+                    return '3%d["pong"]' % ev[-1][3] if ev else None
+                frames = w.encode(2, '/', 4, ['h', arg])
+                for f in frames[:-1]:
+                    w.deliver(f)
+                if is_async:
+                    loop = w.loop
+
+                    async def server():
+                        from engineio import packet as eio_packet
+                        for _ in range(20):
+                            await loop.point('server-polls')
+                            f = ack_frame()
+                            if f:
+                                await w.eio._receive_packet(
+                                    eio_packet.Packet(eio_packet.MESSAGE, f))
+                                return
+                    loop.create_task(server())
+                else:
+                    w.wait_script = [lambda: (ack_frame() and
+                                              w.deliver_raw(ack_frame()))]
+                w.deliver(frames[-1])
+                out = [f for f in w.take_outbox() if f[0] == 'pkt']
+                want = [('pkt', 2, '/', 1, ['q', 1]),
+                        ('pkt', 3, '/', 4, ['pong'])]
+                if seen != [(arg, 'pong')] or out != want:
+                    result.violation(
+                        'C09/call-in-handler',
+                        f'{"Async" if is_async else ""}Client, handler of a '
+                        f'{"binary" if binary else "text"} event uses '
+                        f'call(): handler saw {seen!r}, client sent {out!r} '
+                        f'(expected {want!r}), errors {w.task_errors!r}',
+                        {'rerun': {'module': 'mc.checks.c09',
+                                   'func': 'rerun_call_in_handler'}})
+            finally:
+                w.close()
+    return n
+
+
+def rerun_call_in_handler(result):
+    common.setup_imports()
+    call_in_handler(result)
+
+
 def _teq(a, b):
     from ..refcodec import typed_equal
     return typed_equal(a, b)
@@ -378,6 +456,10 @@ def run(tier, seed, result):
         notes.append(f'async={is_async} coro={coro}: {st}')
     from . import c09_sched
     notes.append(c09_sched.run(tier, seed, result))
+    n = call_in_handler(result)
+    result.add('call_in_handler_scenarios', n)
+    notes.append(f'call() inside a handler (text/binary event, both '
+                 f'clients): {n} scenarios')
     result.assumptions += [
         f'at most {cap} emits-with-callback/call() on "/" and 1 on "/a" per '
         'connection (bounds the id counters)',
